@@ -171,13 +171,22 @@ EncNames == {"StandardEncoding", "MacRomanEncoding", "MacExpertEncoding", "WinAn
 -----------------------------------------------------------------------------
 (* Declarative layer: text strings *)
 
-\* What the statement fixes about text_string(s): ASCII stays in the one-byte encoding (no mark, one
-\* byte per character -- which byte a control character becomes is the implementation's business,
-\* the round trip decides whether the choice works); everything else is FE FF + UTF-16BE.
-EncOk(s, b) == IF AllAscii(s) THEN ~HasBom16(b) /\ ~HasBom8(b) /\ Len(b) = Len(s)
+\* What the statement fixes about text_string(s).  "ASCII stays PDFDocEncoding": a string made of the ASCII
+\* characters PDFDocEncoding has at their own code (TAB, LF, CR, 0x20-0x7E) is stored without a mark, one byte per
+\* character; "everything else becomes UTF-16BE with a byte-order mark": a string with a non-ASCII character is
+\* FE FF + UTF-16BE.  An ASCII string with another control character (U+0000-08, 0B, 0C, 0E-1F, 7F) cannot "stay"
+\* in an encoding that does not have the character: the statement's first sentence (the round trip of ANY string)
+\* decides there, and either form is admissible -- the byte form if the decoder reads it back, else UTF-16BE.
+PdfDocAscii(c) == c \in {9, 10, 13} \/ c \in 32..126
+StaysPdfDoc(s) == \A i \in 1..Len(s) : PdfDocAscii(s[i])
+ByteForm(s, b) == ~HasBom16(b) /\ ~HasBom8(b) /\ Len(b) = Len(s)
+
+EncOk(s, b) == IF StaysPdfDoc(s) THEN ByteForm(s, b)
+               ELSE IF AllAscii(s) THEN ByteForm(s, b) \/ b = Bom16 \o Utf16BE(s)
                ELSE b = Bom16 \o Utf16BE(s)
 
-EncReq(s) == IF AllAscii(s) THEN [kind |-> "onebyte", len |-> Len(s), bytes |-> <<>>]
+EncReq(s) == IF StaysPdfDoc(s) THEN [kind |-> "onebyte", len |-> Len(s), bytes |-> <<>>]
+             ELSE IF AllAscii(s) THEN [kind |-> "either", len |-> Len(s), bytes |-> Bom16 \o Utf16BE(s)]
              ELSE [kind |-> "utf16", len |-> 2 + Len(Utf16BE(s)), bytes |-> Bom16 \o Utf16BE(s)]
 
 \* UTF-16BE body: pairs of bytes; an odd length is malformed
@@ -228,7 +237,9 @@ Match(ts, r) == Len(r) \in WsClosure(r, FoldLeft(LAMBDA S, t : MatchStep(r, S, t
 (*   pdfdoc.c18       cells 0x18-0x1F are the spacing accents                   | stores every ASCII *)
 (*   pdfdoc.del       cell 0x7F is None                                        /  character as itself*)
 (*   utf8.bom.kept    the UTF-8 branch hands the whole slice (mark included) to String::from_utf8   *)
-(* A switch that is off stands for "repaired so that the character survives the round trip".       *)
+(* A switch that is off stands for "repaired so that the character survives the round trip" (for    *)
+(* pdfdoc.c0 the table cells were added; for the other three the repair is in text_string, which     *)
+(* leaves PDFDocEncoding for such a string -- EncOk admits both forms there).                       *)
 (* pdfdoc.c0 (fix: b873012) and utf8.bom.kept (fix: fef01d1) are repaired in lopdf: the code as it   *)
 (* is is the layer with dev = AsIsDevs; the two repaired switches remain so that a regression is     *)
 (* named by its class (the classifier and Trace_TextString always offer all of AllDevs).             *)
